@@ -303,6 +303,8 @@ def specs(draw, max_masters=9):
         "optimize": draw(st.integers(0, 3)) > 0,
         "reload": draw(st.integers(0, 3)) > 0,
         "omit_default_dims": draw(st.booleans()),
+        # class kerning whose two classes have the same size and alphabetically interleaving members
+        "classmix": draw(st.booleans()),
     }
 
 
@@ -429,6 +431,11 @@ def expand(spec):
     if spec["kern"] in ("classes", "both") and len(bases) >= 2:
         k = max(1, len(bases) // 2)
         left, right = bases[:k], bases[k:]
+        if spec.get("classmix"):
+            # own generator: the main stream (and with it every spec written before this option existed) is unchanged
+            order = list(bases)
+            random.Random(spec["seed"] ^ 0xC1A55).shuffle(order)
+            left, right = sorted(order[:k]), sorted(order[k : 2 * k])
         classes = {"L": left, "R": right, "v": _var(rnd, n, -rnd.randint(15, 70), 40), "v2": _var(rnd, n, rnd.randint(10, 50), 30)}
     anchors = None
     if marks:
